@@ -14,6 +14,7 @@ import (
 
 	"github.com/database64128/shadowsocks-go/conn"
 	"github.com/database64128/shadowsocks-go/router"
+	"github.com/database64128/shadowsocks-go/verifhook"
 	"github.com/database64128/shadowsocks-go/zerocopy"
 	"go.uber.org/zap"
 	"golang.org/x/sys/unix"
@@ -227,6 +228,7 @@ func (s *UDPNATRelay) recvFromServerConnRecvmmsg(ctx context.Context, lnc *udpRe
 				natConnSendCh := make(chan *natQueuedPacket, lnc.sendChannelCapacity)
 				entry.natConnSendCh = natConnSendCh
 				s.table[clientAddrPort] = entry
+				verifhook.At("relay.recv.afterInsert", s, clientAddrPort)
 
 				s.wg.Go(func() {
 					var sendChClean bool
@@ -236,6 +238,7 @@ func (s *UDPNATRelay) recvFromServerConnRecvmmsg(ctx context.Context, lnc *udpRe
 						close(natConnSendCh)
 						delete(s.table, clientAddrPort)
 						s.mu.Unlock()
+						verifhook.At("relay.session.cleanup", s, clientAddrPort)
 
 						if !sendChClean {
 							for queuedPacket := range natConnSendCh {
@@ -307,6 +310,7 @@ func (s *UDPNATRelay) recvFromServerConnRecvmmsg(ctx context.Context, lnc *udpRe
 						return
 					}
 
+					verifhook.At("relay.init.beforeSwap", s, clientAddrPort)
 					oldState := entry.state.Swap(natConn.UDPConn)
 					if oldState != nil {
 						natConn.Close()
@@ -488,6 +492,7 @@ main:
 			burstBatchSize = max(burstBatchSize, n)
 		}
 
+		verifhook.At("relay.uplink.afterSend", s, uplink.clientAddrPort)
 		if err := uplink.natConn.SetReadDeadline(time.Now().Add(uplink.natTimeout)); err != nil {
 			uplink.logger.Error("Failed to set read deadline on natConn",
 				zap.Stringer("clientAddress", uplink.clientAddrPort),
@@ -496,6 +501,7 @@ main:
 				zap.Error(err),
 			)
 		}
+		verifhook.At("relay.uplink.afterRearm", s, uplink.clientAddrPort)
 
 		qpvecn := qpvec[:count]
 
@@ -579,6 +585,7 @@ func (s *UDPNATRelay) relayNatConnToServerConnSendmmsg(downlink natDownlinkMmsg)
 			)
 			continue
 		}
+		verifhook.At("relay.downlink.afterRecv", s, downlink.clientAddrPort)
 
 		var ns int
 		rmsgvecn := rmsgvec[:nr]
